@@ -127,6 +127,27 @@ theorem witness_message_ahead_of_commit :
     (deliver by0 m2 0).2 = .err eMessage ∧ (deliver (deliver (deliver by0 m2 0).1 cB 0).1 m2 0).2 = .unprocessable := by
   decide
 
+/-- `h-rotation-in-flight`: a message sent in the state everybody ends on, but under the nostr group id that an
+    admin's commit rotates away before the message is delivered: not routed (GroupNotFound), recorded Failed
+    without group or epoch, never stored, `PreviouslyFailed` on every later offer — although it belongs to the
+    winning branch (its sender was at the very state the rotation commit was made in).  The same commit without
+    the rotation leaves it deliverable. -/
+def cRot : Ev := { n := 6, ts := 30, idnum := 2, cipher := 6, sender := 0, path := [], kind := .commit (.setData { initData [0, 1] 1 with nid := 8 }) [] }
+def cNoRot : Ev := { cRot with kind := .commit (.setData { initData [0, 1] 1 with name := 8 }) [] }
+theorem witness_rotation_in_flight :
+    (deliver (deliver by0 cRot 0).1 m0 0).2 = .err eGroupNotFound ∧
+    (deliver (deliver by0 cRot 0).1 m0 0).1.msgs = [] ∧
+    (deliver (deliver (deliver by0 cRot 0).1 m0 0).1 m0 0).2 = .previouslyFailed ∧
+    (deliver (deliver (deliver by0 cRot 0).1 m0 0).1 m0 0).1.msgs = [] ∧
+    ((deliver (deliver by0 cNoRot 0).1 m0 0).1.msgs.map (fun r => (r.mid, r.state))) = [(0, 1)] := by decide
+
+/-- the rotation mechanism refutes the full statement as well: `m0` was created on (a prefix of) the branch the
+    client ends on -/
+theorem winning_message_valid_full_false_rotation : ¬ winning_message_valid_full := by
+  intro h
+  have := h by0 [cRot] m0 0 101 1 rfl (by decide)
+  revert this; decide
+
 theorem winning_message_valid_full_false : ¬ winning_message_valid_full := by
   intro h
   have := h by0 [m2, cB] m2 1 102 2 rfl (by decide)
